@@ -123,6 +123,13 @@ def proxQuadPerturb (rsqrt : K → K) (P : K → V → V) (a : K) (u : Option V)
   | some u => c • proxArgScaling P c sig (c • x - (sig * c) • u)
   | none => c • proxArgScaling P c sig (c • x)
 
+/-- `proximal_composition(proximal, operator, mu)`:
+`Id + (1/mu) * operator.adjoint * ((proximal(mu*sigma) - Ir) * operator)`; `L`/`Lt` are the
+operator and its adjoint. -/
+def proxComposition {W : Type} [Sub W] (P : K → W → W) (L : V → W) (Lt : W → V)
+    (mu sig : K) (x : V) : V :=
+  x + (1 / mu) • Lt (P (mu * sig) (L x) - L x)
+
 /-- `ProximalL2._call`; `nrm` is the norm of the functional's own space, `eps` the
 `np.finfo(dtype).resolution * 10` fudge, `set_zero` is written `0 • x`. -/
 def proxL2 (nrm : V → K) (eps lam : K) (g : Option V) (sig : K) (x : V) : V :=
